@@ -190,6 +190,33 @@ def run_acceptor_case(L, P, lengths, via_hook=False, entity='AE'):
     return subs[0]['max']
 
 
+def tiny_limit_case(P, as_file):
+    """A peer announcing 1..6 (a P-DATA-TF of that length cannot carry a single payload byte): whatever the library
+    does about such an association, the first clause still binds - it never sends a P-DATA-TF longer than that."""
+    case = {'role': 'tiny-limit', 'P': P, 'as_file': as_file}
+    data = dg.patterned(4000, 3)
+
+    def service(asce, ctx, msg):
+        asce.send(make_msg(data, as_file=as_file), ctx.id)
+    service.sop_classes = [SOP]
+    ae = fd.make_ae('SRV', [TS], 16384)
+    try:
+        ae.add_scp(service)
+
+        def plan(dul):
+            dul.push_pdu(fd.rq_spec([(1, SOP, [TS])], P))
+            dul.push_msg({0x0002: SOP, 0x0100: 0x0020, 0x0110: 1, 0x0700: 0}, b'\x08\x00\x52\x00\x06\x00\x00\x00STUDY ', 1)
+        acc, fac, exc = fd.run_acceptor(ae, [plan], lazy=False)
+    finally:
+        ae.server_close()
+    dul = fac.instances[0]
+    for rec in dul.sent_msgs():
+        too = [n for n in rec['pdu_lengths'] if n > P]
+        if too:
+            raise Violation('C10:too-long:tiny-limit', 'peer announced a maximum of %d; a P-DATA-TF of length %d was handed to the '
+                            'provider (data set given as %s)' % (P, max(too), 'file-like object' if as_file else 'bytes'), case)
+
+
 def run_requestor_case(L, P, lengths, entity='ClientAE'):
     from pynetdicom2 import applicationentity, sopclass
     case = {'role': 'requestor', 'L': L, 'P': P, 'lengths': lengths, 'entity': entity}
@@ -448,7 +475,7 @@ def run(ctx):
                 % (len(GRID), len(GRID), CAP))
     ctx.assumptions = ['send limit = peer-announced value, 0 = unlimited; the implementation may tighten it, never '
                        'loosen it', 'announced value A must satisfy: own limit L != 0  =>  0 < A <= L',
-                       'values 1..6 (cannot carry a payload byte) are outside the domain',
+                       'values 1..6 (cannot carry a payload byte) are outside the domain of "remain able to send"; "never longer than announced" is checked for them too',
                        'the provider is created with the configured maximum, which is the size it passes to recv(): checked on the simulated transport']
     pairs = [(L, P) for L in GRID for P in GRID]
     parallel(ctx, run_pairs, [{'pairs': pairs[i::16]} for i in range(16)])
@@ -463,6 +490,10 @@ def run(ctx):
             ctx.case((role, L, P, 'big'), True, labels=['limits-above-1MiB', 'role=' + role],
                      sample={'role': role, 'own_max': L, 'peer_announced': P, 'data_len': lengths[0]})
     run_same_object_two_associations(ctx)
+    for P in (1, 4, 5, 6):
+        for as_file in (False, True):
+            ctx.case(('tiny-limit', P, as_file), True, labels=['peer-announces-1..6'], sample={'peer announced': P, 'file-like': as_file})
+            ctx.check(tiny_limit_case, P, as_file)
     run_provider_read_sizes(ctx)
     run_loopback(ctx)
     run_random(ctx, 8000 if ctx.thorough else 500)
@@ -470,6 +501,9 @@ def run(ctx):
 
 def replay(case):
     quiet_warnings()
+    if case.get('role') == 'tiny-limit':
+        tiny_limit_case(case['P'], case['as_file'])
+        return
     if case.get('role') == 'loopback-exact-peer':
         from .. import loopback as lb
         try:
